@@ -132,3 +132,15 @@ pub fn conclude(property: &str, violations: &[Violation]) -> i32 {
         0
     }
 }
+
+/// Reach probes: "this rare condition was hit" counters, with the ones stuck at zero listed
+/// (a probe at zero means the workload or the fault mix must change).
+pub fn add_probes(cov: &mut BTreeMap<String, Value>, probes: &[(&str, usize)]) {
+    let map: BTreeMap<String, usize> = probes.iter().map(|(k, v)| (k.to_string(), *v)).collect();
+    let zero: Vec<String> = probes.iter().filter(|(_, v)| *v == 0).map(|(k, _)| k.to_string()).collect();
+    if !zero.is_empty() {
+        println!("warning: reach probes stuck at zero: {zero:?}");
+    }
+    cov.insert("reach_probes".into(), json!(map));
+    cov.insert("reach_probes_at_zero".into(), json!(zero));
+}
